@@ -292,7 +292,8 @@ the store before the command with the fabric record written -/
 theorem sessOp_complete_snaps (cfg : Cfg) (n : Node) (sid s : Nat) (mode : Mode) :
     ∀ kv ∈ (sessOp cfg n sid mode (.complete s)).1.hist,
       kv ∈ n.hist ∨ KV.Same kv n.kv ∨ KV.Same kv (sessOp cfg n sid mode (.complete s)).1.kv ∨
-      ∃ f, KV.Same kv (n.kv.putFabric f) := by
+      ((∃ f, KV.Same kv (n.kv.putFabric f)) ∧
+        n.hist.length + 2 ≤ (sessOp cfg n sid mode (.complete s)).1.hist.length) := by
   simp only [sessOp]
   split
   · exact fun kv hk => Or.inl hk
@@ -314,7 +315,8 @@ theorem sessOp_complete_snaps (cfg : Cfg) (n : Node) (sid s : Nat) (mode : Mode)
           rw [hr2] at hst2
           simp only at hst2
           have hcase : ∀ (m : Node), m.kv = n2.kv → m.hist = n2.hist →
-              ∀ kv ∈ m.hist, kv ∈ n.hist ∨ KV.Same kv n.kv ∨ KV.Same kv m.kv ∨ ∃ f, KV.Same kv (n.kv.putFabric f) := by
+              ∀ kv ∈ m.hist, kv ∈ n.hist ∨ KV.Same kv n.kv ∨ KV.Same kv m.kv ∨
+                ((∃ f, KV.Same kv (n.kv.putFabric f)) ∧ n.hist.length + 2 ≤ m.hist.length) := by
             intro m hmk hmh kv hk
             rw [hmh] at hk
             rcases hst2 with ⟨_, hkv2, hh2⟩ | ⟨_, hkv2, hh2⟩
@@ -324,7 +326,11 @@ theorem sessOp_complete_snaps (cfg : Cfg) (n : Node) (sid s : Nat) (mode : Mode)
               · have hk' : kv ∈ n1.hist := hk
                 rw [hh1] at hk'
                 rcases List.mem_cons.mp hk' with rfl | hk'
-                · exact Or.inr (Or.inr (Or.inr ⟨f, KV.Same.refl _⟩))
+                · refine Or.inr (Or.inr (Or.inr ⟨⟨f, KV.Same.refl _⟩, ?_⟩))
+                  rw [hmh, hh2]
+                  show n.hist.length + 2 ≤ (n1.hist).length + 1
+                  rw [hh1]
+                  simp
                 · exact Or.inl hk'
             · rw [hh2] at hk
               have hk' : kv ∈ n1.hist := hk
@@ -368,7 +374,8 @@ theorem restartFrom_snaps (n : Node) (kv : KV) (hist : List KV) :
 def StepSnaps (cfg : Cfg) (n : Node) (op : Op) : Prop :=
   ∀ kv ∈ (step cfg n op).1.hist,
     kv ∈ n.hist ∨ KV.Same kv n.kv ∨ KV.Same kv (step cfg n op).1.kv ∨
-    ((∃ s, op = .complete s) ∧ ∃ f, KV.Same kv (n.kv.putFabric f))
+    (∃ s, op = .complete s ∧ (∃ f, KV.Same kv (n.kv.putFabric f)) ∧
+      (checkTimeouts cfg n (some s)).1.hist.length + 2 ≤ (step cfg n op).1.hist.length)
 
 theorem stepSnaps_of_one {cfg : Cfg} {n : Node} {op : Op} (h : One n (step cfg n op).1) : StepSnaps cfg n op :=
   fun kv hk => (h kv hk).elim Or.inl (fun x => x.elim (fun y => Or.inr (Or.inl y)) (fun y => Or.inr (Or.inr (Or.inl y))))
@@ -384,13 +391,15 @@ theorem step_snaps (cfg : Cfg) (n : Node) (op : Op) (hop : op ≠ .freset) : Ste
       · obtain ⟨s, rfl⟩ := hc
         intro kv hk
         rw [e] at hk ⊢
-        rcases sessOp_complete_snaps cfg _ sid s s1.mode kv hk with h | h | h | ⟨f, h⟩
+        have hsid : sid = s := by simpa [isSessOp] using hso.symm
+        subst hsid
+        rcases sessOp_complete_snaps cfg _ sid sid s1.mode kv hk with h | h | h | ⟨⟨f, h⟩, hlen⟩
         · rcases hq.2 kv h with h' | h'
           · exact Or.inl h'
           · exact Or.inr (Or.inl h')
         · exact Or.inr (Or.inl (h.trans hq.1))
         · exact Or.inr (Or.inr (Or.inl h))
-        · exact Or.inr (Or.inr (Or.inr ⟨⟨s, rfl⟩, f, h.trans (same_putFabric f hq.1)⟩))
+        · exact Or.inr (Or.inr (Or.inr ⟨sid, rfl, ⟨f, h.trans (same_putFabric f hq.1)⟩, hlen⟩))
       · refine stepSnaps_of_one ?_
         rw [e]
         exact quiet_one hq (sessOp_one cfg _ sid s1.mode op (fun s hs => hc ⟨s, hs⟩))
